@@ -5,6 +5,7 @@ R06.2 subdivision conserves weight: children get factor/ndiv…, their number eq
 R06.3 absorb() adds the other point's weight on every path that does not leave at the `other is None` guard.
 R06.4 tetrahedral grids: initial weights are normalised; the K-list handed to run() consists of copies carrying the weight.
 R06.5 the action of a point-group operation on a k-point includes both the time-reversal and the inversion sign.
+R06.6 restart: the stored factors are padded with zeros to the length of the stored K-list before they are assigned.
 """
 from __future__ import annotations
 
@@ -22,7 +23,8 @@ EXPLANATION = (
     "exactly that element; (R06.2) in both divide() methods the children's factor is self.factor divided by an expression "
     "that equals the number of children created by the loop nest, and self.set_factor(0) lies on every path to the return "
     "(CFG must-pass); (R06.3) absorb() reaches add_factor(other.factor) on every non-guard path; (R06.4) GridTetra "
-    "normalises its initial weights and copies carry them; (R06.5) the k-point action multiplies by iTR·iInv. Decides that "
+    "normalises its initial weights and copies carry them; (R06.5) the k-point action multiplies by iTR·iInv; (R06.6) on restart the factors zipped with the stored K-points are "
+    "[stored | zeros(len(K_list) − len(stored))] in concatenation normal form, so points created after the restart iteration get weight 0. Decides that "
     "no code path creates or destroys weight; does not decide that symmetry images tile the grid (group geometry).")
 
 GR = "wannierberri/grid/grid.py"
